@@ -84,11 +84,14 @@ class ExpansionReversed(ExpansionStrategy):
 class FirstLetterToA(DisjointUnionStrategy[Av, Word]):
     """{b} x C  ->  {a} x C when the first letter of the prefix cannot take part in an occurrence of a pattern.  A
     single-child equivalence whose object map is neither the identity nor an involution commuting with the letter
-    swap, so that the order of composition inside an equivalence path matters.  Classes without statistics only."""
+    swap, so that the order of composition inside an equivalence path matters.  Classes without statistics only.
+    With ``with_empty`` the rule has an (always empty) first child, so the equivalence sits at child index 1 and the
+    backward map refuses an object placed at index 0."""
 
-    def __init__(self, ignore_parent=True, inferrable=True, possibly_empty=False, workable=True):
-        super().__init__(ignore_parent=ignore_parent, inferrable=inferrable, possibly_empty=possibly_empty,
-                         workable=workable)
+    def __init__(self, ignore_parent=True, inferrable=True, possibly_empty=False, workable=True, with_empty=False):
+        super().__init__(ignore_parent=ignore_parent, inferrable=inferrable,
+                         possibly_empty=possibly_empty or with_empty, workable=workable)
+        self.with_empty = bool(with_empty)
 
     def decomposition_function(self, comb_class):
         c = comb_class
@@ -99,27 +102,63 @@ class FirstLetterToA(DisjointUnionStrategy[Av, Word]):
         child = c.derive(prefix="a" + c.prefix[1:])
         if child.is_empty() or RemoveFrontOfPrefix.index_safe_to_remove_up_to(child) < 1:
             return None
-        return (child,)
+        if not self.with_empty:
+            return (child,)
+        if not c.patterns:
+            return None
+        return (c.derive(prefix=c.patterns[0]), child)  # a prefix containing a pattern: the empty class
 
     def extra_parameters(self, comb_class, children=None):
-        return ({},)
+        return ({}, {}) if self.with_empty else ({},)
 
     def formal_step(self) -> str:
-        return "replace the free first letter b by a"
+        return "replace the free first letter b by a" + (" (after an empty class)" if self.with_empty else "")
 
     def forward_map(self, comb_class, obj, children=None):
-        return (Word("a" + obj[1:]),)
+        image = Word("a" + obj[1:])
+        return (None, image) if self.with_empty else (image,)
 
     def backward_map(self, comb_class, objs, children=None):
-        assert objs[0] is not None
-        yield Word("b" + objs[0][1:])
+        if self.with_empty:
+            if objs[0] is not None or objs[1] is None:
+                raise ValueError("the first child is empty, the object must be at index 1")
+            yield Word("b" + objs[1][1:])
+        else:
+            assert objs[0] is not None
+            yield Word("b" + objs[0][1:])
+
+    def to_jsonable(self):
+        d = super().to_jsonable()
+        d["with_empty"] = self.with_empty
+        return d
 
     @classmethod
     def from_dict(cls, d):
         return cls(**d)
 
     def __repr__(self):
-        return "FirstLetterToA()"
+        return f"FirstLetterToA(with_empty={self.with_empty})"
+
+
+class RemoveFrontDropStat(RemoveFrontOfPrefix):
+    """The product of RemoveFrontOfPrefix where the atom tracks only the statistics that are non-zero on it: the two
+    children have different parameter lists (a parent statistic not mapped to a child contributes 0 there)."""
+
+    def decomposition_function(self, comb_class):
+        children = super().decomposition_function(comb_class)
+        if children is None:
+            return None
+        start, end = children
+        kept = tuple(s for s in start.stats if STAT_LETTER[s] in start.prefix)
+        return (start.derive(stats=kept), end)
+
+    def extra_parameters(self, comb_class, children=None):
+        if children is None:
+            children = self.decomposition_function(comb_class)
+        return ({s: s for s in children[0].stats}, {s: s for s in comb_class.stats})
+
+    def formal_step(self) -> str:
+        return "removing redundant prefix (the atom forgets vanishing statistics)"
 
 
 def _local_pack(name, initial, inferral, expansion, ver, symmetries=None):
@@ -136,6 +175,11 @@ LOCAL_PACKS = {
     "firstletter-noinitial": lambda: _local_pack("firstletter-noinitial", [], [FirstLetterToA()],
                                                  [[ExpansionReversed(), RemoveFrontOfPrefix()]],
                                                  [StatAtomStrategy()], symmetries=[SwapSymmetry()]),
+    "firstletter-empty": lambda: _local_pack("firstletter-empty",
+                                             [FirstLetterToA(with_empty=True), RemoveFrontOfPrefix()], [],
+                                             [[ExpansionStrategy()]], [StatAtomStrategy()]),
+    "dropfront": lambda: _local_pack("dropfront", [RemoveFrontDropStat()], [], [[ExpansionDropStat()]],
+                                     [StatAtomStrategy()]),
 }
 ALL_PACKS = dict(PACKS)
 ALL_PACKS.update(LOCAL_PACKS)
@@ -410,7 +454,7 @@ def check_generation(job, start, spec, nmax, out):
 
 def CHAIN_STRATEGIES():
     return [SwapSymmetry(), FirstLetterToA(), RemoveRedundantPatterns(), DropZeroStats(), MergeDuplicateStats(),
-            ExpansionReversed(), ExpansionStrategy(), ExpansionZeroMerge()]
+            ExpansionReversed(), ExpansionStrategy(), ExpansionZeroMerge(), FirstLetterToA(with_empty=True)]
 
 
 def _equivalence_steps(cls):
